@@ -377,11 +377,13 @@ def unencodable_content_case(res, no):
             stage = "load"
             md2 = Metadata.load(path)
             stage = "verify"
-            from securesystemslib.signer import Key
-            md2.verify_signature(Key.from_dict(k.keyid, {x: v for x, v in k.pub.items() if x != "keyid"}))
+            import copy as _copy
+            md2.verify_signature(_copy.deepcopy(k.pub))
             outs[dsse] = {"ends": "verified"}
         except Exception as e:  # pylint: disable=broad-except
-            outs[dsse] = {"ends": "refused"}
+            # (how far it got - whether such a link can be made, signed, stored and used at all - is part of the outcome;
+            #  the class of the error is reported, not compared)
+            outs[dsse] = {"ends": "refused", "got_as_far_as": stage if stage in ("construct", "wrap") else "past construction"}
             outs[dsse + 2] = {"stage": stage, "err": W.exc_class(e)}
         finally:
             shutil.rmtree(d, ignore_errors=True)
